@@ -81,7 +81,8 @@ contract("CParser._is_type_in_scope", file=P, params={"self": "CParser", "name":
          ensures=["result == lookup(len(self._scope_stack))"],
          modifies=[],
          loops={1: dict(inv=["lookup(len(self._scope_stack)) == lookup(_n - _i)"])},
-         locals_order=["scope"])
+         locals_order=["scope"],
+         ghost_impl={"lookup": "lambda k: next((s[name] for s in reversed(self._scope_stack[:k]) if name in s), False)"})
 
 contract("CParser._lex_type_lookup_func", file=P, params={"self": "CParser", "name": "str"}, returns="bool",
          requires=["scopes_ok(self)"], ensures=["result == lookup(len(self._scope_stack))"], modifies=[])
